@@ -143,7 +143,9 @@ def main(argv):
     ev, violations, spurious, crashed, notes, valprob = aggregate(
         pid, tier, seed, results, meta, time.time() - t0)
     known = load_known()
-    os.makedirs(os.path.join(HERE, 'evidence'), exist_ok=True)
+    EVD = os.environ.get('VERIF_EVIDENCE_DIR') or os.path.join(HERE,
+                                                                'evidence')
+    os.makedirs(EVD, exist_ok=True)
     rc = 0
     new_v, known_hit = [], {}
     for v in violations:
@@ -153,11 +155,11 @@ def main(argv):
         else:
             new_v.append(v)
     ev['coverage']['known_findings_reproduced'] = sorted(known_hit)
-    with open(os.path.join(HERE, 'evidence', '%s.json' % pid), 'w') as f:
+    with open(os.path.join(EVD, '%s.json' % pid), 'w') as f:
         json.dump(ev, f, indent=1, default=str)
     for k in known_hit.values():
         print('KNOWN-FINDING: property=%s %s' % (pid, k['what']))
-    rdir = os.path.join(HERE, 'evidence', 'replays')
+    rdir = os.path.join(EVD, 'replays')
     seen = set()
     for i, v in enumerate(new_v):
         key = (v['label'], v['harness'],
